@@ -321,7 +321,8 @@ def _start_reader(backend, name, old, new, holder):
                 got = backend.download(name)
                 listed = list(backend.list_files(''))
                 stray = [n for n in listed if n not in holder['known_names']]
-                if stray or listed.count(name) != 1:
+                # (names ending in '.tmp' are never listed by Local: known finding C13-local-tmp-suffix-hidden, judged on the main path)
+                if stray or (listed.count(name) != 1 and not name.endswith('.tmp')):
                     holder['reader_violation'] = {'cls': 'listing-shows-in-progress-upload', 'sig': {},
                                                   'msg': f'while {name!r} was being overwritten a concurrent listing returned {stray[:3] or listed}'}
                     return
